@@ -3,6 +3,7 @@ package mon
 import (
 	"errors"
 	"fmt"
+	"net/http"
 	"strings"
 
 	"github.com/gookit/rux"
@@ -26,6 +27,8 @@ func panicValue(kind string) any {
 		return errPanicSentinel
 	case "int":
 		return 42
+	case "abort":
+		return http.ErrAbortHandler // the sentinel stock net/http handlers (e.g. ReverseProxy) panic with
 	}
 	return panicStruct{7, "x"}
 }
@@ -51,6 +54,9 @@ func armPanics(p *Program) {
 					rec.Extra["nested_pv"] = ipv
 					rec.Extra["nested_same_ctx"] = inner.CtxPtr == c
 					rec.Ev("nested-done")
+				}
+				if n := len(c.Errors); n > 0 && phase == "pre" {
+					rec.Ev("errors-present(%s)=%d:%v", id, n, c.FirstError())
 				}
 				// X-Dirty: "<site>|action,action,...": context mutations performed at that site (C10)
 				if d := c.Req.Header.Get("X-Dirty"); phase == "pre" && strings.HasPrefix(d, id+"|") {
@@ -238,8 +244,8 @@ func c09Case(t *T) {
 
 	// the panicking request
 	q := pick(r, reqs)
-	val := pick(r, []string{"string", "error", "int", "struct"})
-	preAct := pick(r, []string{"", "", "status", "write"})
+	val := pick(r, []string{"string", "error", "int", "struct", "abort"})
+	preAct := pick(r, []string{"", "", "status", "write", "adderror"})
 	hdr := map[string]string{"X-Panic-Val": val, "X-Panic-Pre": preAct}
 	var site *MW
 	phase := "pre"
